@@ -46,7 +46,7 @@ def check_property(prop, tier, seed):
     records = []   # one per obligation
     overlay_info = {}
     with common.Scratch("%s.%s" % (prop, tier)) as sc:
-        src_hash = common.tree_hash(sc.repo)
+        src_hash = sc.pristine_hash
         # ---- Verus leg + syntactic/build obligations: from the pristine copy
         for u in vunits:
             records.extend(verusrun.run_unit(sc, u, tier))
@@ -73,7 +73,7 @@ def check_property(prop, tier, seed):
                     "seconds": res.get("seconds"), "checks": res.get("checks", 0),
                     "covers": res.get("covers"), "ignored_checks": res.get("ignored", []),
                     "failed_checks": res.get("failed", []), "bounded": o.get("bounded"),
-                    "cmd": res.get("cmd", ""), "replay_mode": o["replay"], "solver": "cadical",
+                    "cmd": res.get("cmd", ""), "replay_mode": o["replay"], "solver": "cadical", "cached": bool(res.get("cached")),
                 }
                 records.append(rec)
         # ---- replay failed obligations while the scratch copy still exists
@@ -155,7 +155,7 @@ def report(prop, tier, seed, records, overlay_info, src_hash, wall):
 
 def slim(r):
     keys = ["name", "backend", "kind", "function", "domain", "config", "verdict", "seconds", "checks",
-            "covers", "bounded", "reason", "cmd", "replay_path", "replay_outcome", "ignored_checks"]
+            "covers", "bounded", "reason", "cmd", "replay_path", "replay_outcome", "ignored_checks", "cached"]
     d = {k: r[k] for k in keys if k in r and r[k] not in (None, "", [])}
     if "ignored_checks" in d:
         d["ignored_checks"] = ["%s @ %s" % (x["description"], x["location"]) for x in d["ignored_checks"]][:8]
